@@ -20,6 +20,10 @@ FIRST = {
     "C01-c": "input", "C02-c": "input", "C03-c": "oblig", "C04-c": "input", "C05-c": "input", "C06-c": "input", "C07-c": "oblig",
     "C08-c": "missed", "C09-c": "input", "C10-c": "oblig", "C11-c": "oblig", "C12-c": "input", "C13-c": "input", "C14-c": "input",
     "C15-c": "input", "C16-c": "missed", "C17-c": "missed", "C18-c": "input", "C19-c": "input", "C20-c": "input",
+    # round d (generic flavour; first run against the machinery after rounds a-c, incl. the source fingerprints)
+    "C01-d": "input", "C02-d": "oblig", "C03-d": "input", "C04-d": "oblig", "C05-d": "input", "C06-d": "input", "C07-d": "input",
+    "C08-d": "input", "C09-d": "input", "C10-d": "input", "C11-d": "oblig", "C12-d": "input", "C13-d": "oblig", "C14-d": "input",
+    "C15-d": "input", "C16-d": "oblig", "C17-d": "oblig", "C18-d": "input", "C19-d": "input", "C20-d": "oblig",
 }
 
 # what was strengthened because of the defect (empty = nothing needed)
@@ -46,6 +50,13 @@ STRENGTHENED = {
     "C11-c": "issuer names / serials that sloppy key construction confuses, through the real repository on both backends",
     "C16-c": "(same strengthening as C16-b)",
     "C17-c": "allocation volume (TotalAlloc) of the download phase on its own, per loader kind",
+    "C02-d": "responder behaviour 'forged': a good answer signed by and embedding an EKU-less certificate of the same issuer",
+    "C04-d": "directed history: verify_log, verified list, unverifiable list installed, restart under verify (disk)",
+    "C16-d": "(same directed history as C04-d)",
+    "C11-d": "confusable pairs with the separator inside the serial's octets",
+    "C13-d": "the failed-verification state made to last (list signed by a key no chain contains) under 12 handshake goroutines and ticks",
+    "C17-d": "a DER CRL without any 0x0A octet before its signature (1.2 million entries) and a fast HeapAlloc sampler without forced collections",
+    "C20-d": "exclusivity scenario: refused Provision + Cleanup of the refused module must not release the holder's work_dir",
 }
 
 WORD = {"input": "caught, concrete input", "oblig": "caught, obligation only (no-failing-input-found)", "missed": "MISSED", None: "?"}
